@@ -389,8 +389,11 @@ class HexInt:
     def __sformat__(self, spec):
         if spec.endswith('x') and spec[:-1].isdigit() and spec.startswith('0'):
             w = builtins.int(spec[:-1])
-            sig = self.significant()
-            nibs = self.nibs[len(self.nibs) - sig:]
+            if len(self.nibs) <= w:
+                nibs = self.nibs            # leading zero digits render as '0', exactly like the padding
+            else:
+                sig = self.significant()
+                nibs = self.nibs[len(self.nibs) - sig:]
             cells = [HexNib(t) for t in nibs]
             return SymStr(['0'] * max(0, w - len(cells)) + cells)
         if spec == '':
@@ -408,10 +411,13 @@ class HexInt:
     def to_bytes(self, length, byteorder='big', **kw):
         if byteorder != 'big':
             raise Unsupported('little endian')
-        sig = self.significant()
-        if sig > 2 * length:
-            raise OverflowError('int too big to convert')
-        nibs = self.nibs[len(self.nibs) - sig:]
+        if len(self.nibs) <= 2 * length:
+            nibs = self.nibs
+        else:
+            sig = self.significant()
+            if sig > 2 * length:
+                raise OverflowError('int too big to convert')
+            nibs = self.nibs[len(self.nibs) - sig:]
         z = z3.BitVecVal(0, 4)
         return SymBytes([z] * (2 * length - len(nibs)) + nibs)
 
